@@ -46,6 +46,17 @@ struct vm_abi_lp16
   static constexpr const char* name = "lp16";
 };
 
+// host-like widths, but pointers are 64-bit unsigned integers (offsets) instead of C++ pointers
+struct vm_abi_lp64u
+{
+  using T_LongLongType = int64_t;
+  using T_LongType = int64_t;
+  using T_IntType = int32_t;
+  using T_PointerType = uint64_t;
+  using T_ShortType = int16_t;
+  static constexpr const char* name = "lp64u";
+};
+
 // One exported guest function: host address of the guest-ABI implementation.
 struct vm_export
 {
